@@ -160,6 +160,9 @@ function abstain(c) {
 
 // invocation orders explored, as sequences over {c1,c2,i1,i2}
 const ORDERS_CALL2 = [['c1', 'i1', 'c2', 'i2'], ['c1', 'c2', 'i1', 'i2'], ['c1', 'c2', 'i2', 'i1'], ['c1', 'c2', 'i1', 'i2', 'i1']];
+// thorough tier: repeated invocations and the remaining linearisations
+const ORDERS_CALL2_DEEP = [['c1', 'i1', 'i1', 'c2', 'i2', 'i2'], ['c1', 'c2', 'i2', 'i1', 'i2'], ['c1', 'i1', 'c2', 'i1', 'i2'], ['c1', 'i1', 'c2', 'i2', 'i1']];
+const ORDERS_PAIR_DEEP = [['c', 'i1', 'i1', 'i2'], ['c', 'i2', 'i1', 'i2', 'i1']];
 const ORDERS_PAIR = [['c', 'i1', 'i2'], ['c', 'i2', 'i1']];
 
 function judge(c, resps) {
@@ -170,7 +173,7 @@ function judge(c, resps) {
   const viol = [];
   const obsAll = [];
   const mode = CTX[c.ctx].mode;
-  const orders = mode === 'call2' ? ORDERS_CALL2 : ORDERS_PAIR;
+  const orders = (mode === 'call2' ? ORDERS_CALL2 : ORDERS_PAIR).concat(process.env.VERIF_TIER_EFFECTIVE === 'thorough' ? (mode === 'call2' ? ORDERS_CALL2_DEEP : ORDERS_PAIR_DEEP) : []);
   let extra = 0;
   for (const order of orders) {
     extra++;
@@ -253,14 +256,15 @@ function* allCases() {
 }
 
 function spaces(tier) {
+  const thorough = true; // cheap: the quick tier explores the whole product too
   return [{
     name: 'slots',
-    bounds: { hosts: DIMS.host, shapes: DIMS.shape, runtime_kinds: KINDS, vslots: DIMS.vslots, contexts: DIMS.ctx, options: 'enableObjectSlots × optimize', interleavings: { call2: ORDERS_CALL2.map((o) => o.join(',')), pair: ORDERS_PAIR.map((o) => o.join(',')) } },
+    bounds: { hosts: DIMS.host, shapes: DIMS.shape, runtime_kinds: KINDS, vslots: DIMS.vslots, contexts: DIMS.ctx, options: 'enableObjectSlots × optimize', interleavings: { call2: ORDERS_CALL2.concat(tier === 'thorough' ? ORDERS_CALL2_DEEP : []).map((o) => o.join(',')), pair: ORDERS_PAIR.concat(tier === 'thorough' ? ORDERS_PAIR_DEEP : []).map((o) => o.join(',')) } },
     *gen() { yield* allCases(); },
   }, {
     name: 'P:configured-pragma',
-    bounds: { pragma: 'hh (a createVNode-compatible factory)', contexts: ['arrow', 'fn', 'stmt', 'loop'], vslots: ['none', 'obj'], note: 'the same product under a configured vnode factory: what the children become must not depend on who creates the vnodes' },
-    *gen() { for (const c of allCases()) if (['arrow', 'fn', 'stmt', 'loop'].includes(c.ctx) && ['none', 'obj'].includes(c.vslots)) yield Object.assign({}, c, { pg: true }); },
+    bounds: { pragma: 'hh (a createVNode-compatible factory)', contexts: thorough ? 'all' : ['arrow', 'fn', 'stmt', 'loop'], vslots: thorough ? 'all' : ['none', 'obj'], note: 'the same product under a configured vnode factory: what the children become must not depend on who creates the vnodes' },
+    *gen() { for (const c of allCases()) if (thorough || (['arrow', 'fn', 'stmt', 'loop'].includes(c.ctx) && ['none', 'obj'].includes(c.vslots))) yield Object.assign({}, c, { pg: true }); },
   }];
 }
 
